@@ -417,11 +417,27 @@ Lemma gpd_geometry_roundtrip_z : forall half orc g t,
 Proof. intros half orc g t K W E. rewrite E, read_LZ. apply wkt_roundtrip; assumption. Qed.
 End ShapelyZ.
 
-(* D41: Shapely 2 writes MULTIPOINT ((x y), (x y)); the library's reader rejects that nesting
-   for EVERY multipoint (not only for some) *)
-Lemma gpd_multipoint_refuted : forall half cs,
-  WktM.read half TMPoint (shapely_multipoint cs) = Err ValueError.
-Proof. intros. reflexivity. Qed.
+(* D41 (repaired): Shapely 2 writes MULTIPOINT ((x y), (x y)) - one parenthesised coordinate per point -
+   (with the Z marker for three-dimensional points); after the repair the reader accepts that form
+   and returns the same multipoint as for the library's own flat text *)
+Lemma gpd_multipoint_roundtrip : forall half (orc : oracle) cs zm,
+  zm = [] \/ zm = [LZ] -> wkt_wf half (GMPoint cs) ->
+  WktM.read half TMPoint (mkwkt (Some TMPoint) true zm (W2 (map (fun c => [tuple_of c]) cs))) = Ok (GMPoint cs).
+Proof.
+  intros half orc cs zm Hz W.
+  replace (map (fun c => [tuple_of c]) cs) with (map (fun t : tuple => [t]) (wring cs))
+    by (unfold wring; rewrite map_map; reflexivity).
+  rewrite multipoint_nested_reads.
+  destruct Hz as [-> | ->].
+  - change (mkwkt (Some TMPoint) true [] (W1 (wring cs))) with (write orc None (GMPoint cs)).
+    apply wkt_roundtrip; [reflexivity|exact W].
+  - change (mkwkt (Some TMPoint) true [LZ] (W1 (wring cs))) with (with_zm [LZ] (write orc None (GMPoint cs))).
+    rewrite read_LZ. apply wkt_roundtrip; [reflexivity|exact W].
+Qed.
+
+Lemma shapely_multipoint_reads : forall half (orc : oracle) cs,
+  wkt_wf half (GMPoint cs) -> WktM.read half TMPoint (shapely_multipoint cs) = Ok (GMPoint cs).
+Proof. intros half orc cs W. unfold shapely_multipoint. apply (gpd_multipoint_roundtrip half orc); [left; reflexivity|exact W]. Qed.
 
 (* ====================== (g) KML ====================== *)
 
